@@ -1,5 +1,6 @@
 import Emboss.Model.Fmt
 import Emboss.Spec.Fmt
+import Emboss.Spec.FmtEquivC
 import Driver.Util
 open Emboss.Fmt Driver
 
@@ -11,7 +12,8 @@ open Emboss.Fmt Driver
   `none` (the model says the Python raises), or `not-text` (the root handler did not
   return a string).
 * `TABLE` — evaluates the table obligations of Spec/Fmt.lean on the regenerated registry
-  (`tableTyped formatters`, `tableMatchesGrammar formatters grammar`, `tableNormal formatters`):
+  (`tableTyped formatters`, `tableMatchesGrammar formatters grammar`, `tableNormal formatters`,
+  `tableComment formatters`):
   `ok`, or `bad …`
   naming the first offending entries.
 * `SANITY <formatted tokens> <original tokens>` — each a `,`-separated list of
@@ -98,14 +100,16 @@ def showEntry (e : String × List String × String × Bool) : String :=
 def tableReport : String :=
   let tbl := Emboss.Generated.FmtTable.formatters
   let g := Emboss.Generated.FmtTable.grammar
-  if tableTyped tbl && tableMatchesGrammar tbl g && tableNormal tbl then "ok"
+  if tableTyped tbl && tableMatchesGrammar tbl g && tableNormal tbl && tableComment tbl then "ok"
   else
     let untyped := (tbl.filter (fun e => !checkEntry e)).take 3
     let undropped := (tbl.filter (fun e => !dropOK e)).take 3
     let layoutLhs := (tbl.filter (fun e => isLayoutSym e.1)).take 3
     let unnormal := (tbl.filter (fun e => !normOK e)).take 3
+    let uncomment := (tbl.filter (fun e => !commentOK e)).take 3
     "bad grammar-match=" ++ toString (tableMatchesGrammar tbl g) ++
       " layout-or-documentation-argument-used=[" ++ "; ".intercalate (unnormal.map showEntry) ++ "]" ++
+      " comment-not-at-comment-position=[" ++ "; ".intercalate (uncomment.map showEntry) ++ "]" ++
       " untyped=[" ++ "; ".intercalate (untyped.map showEntry) ++ "]" ++
       " ignored-non-layout=[" ++ "; ".intercalate (undropped.map showEntry) ++ "]" ++
       " layout-lhs=[" ++ "; ".intercalate (layoutLhs.map showEntry) ++ "]"
